@@ -7,7 +7,10 @@
    (E_timer_Reset d, E_timer_Stop), and absorb applies both to the model state:
    timer.Reset(d) arms the timer to fire d after now, timer.Stop() disarms it. *)
 From Coq Require Import List ZArith Bool Lia ZifyBool.
-From RQ Require Import Lib.GoLib Lib.GenTac Model.C36 Gen.Throttler.
+From RQ Require Import Lib.GoLib.
+From RQ Require Import Lib.GenTac.
+From RQ Require Import Model.C36.
+From RQ Require Import Gen.Throttler.
 Import ListNotations.
 Local Open Scope Z_scope.
 
@@ -31,7 +34,7 @@ Definition apply_eff (s : state) (e : effect) : state :=
 Definition absorb (s : state) (g : Throttler unit) (effs : list effect) : state :=
   fold_left apply_eff effs (set_level s (Throttler_delayFactor unit g)).
 
-Ltac unf := cbv beta iota zeta delta [absorb rep apply_eff Throttler_touch Throttler_Signal Throttler_Release
+Ltac unf := aux; cbv beta iota zeta delta [absorb rep apply_eff Throttler_touch Throttler_Signal Throttler_Release
   Throttler_Reset touch signal release reset set_level set_timer max_level zlen set_Throttler_delayFactor
   fst snd fold_left app isSome
   Throttler_delayFactor Throttler_delays Throttler_releaseRate Throttler_idleTimeout Throttler_timer
